@@ -32,6 +32,16 @@ type H3Extra struct {
 	UniFlood int      `json:"uni_flood,omitempty"`   // that many more unidirectional streams of a reserved type
 	Code     uint64   `json:"code,omitempty"`        // error code for reset / connclose
 	CtlLate  bool     `json:"control_after_request,omitempty"`
+	// Script: events on several unidirectional streams in a fixed order (the peer pauses between
+	// events so that the client has dealt with one before the next arrives); replaces Control / Uni
+	Script []UniStep `json:"uni_event_order,omitempty"`
+}
+
+type UniStep struct {
+	Stream int    `json:"stream"` // index of the unidirectional stream (opened at its first event)
+	Data   []byte `json:"-"`
+	Hex    string `json:"data"`
+	Fin    bool   `json:"fin,omitempty"`
 }
 
 type h3peer struct {
@@ -104,6 +114,29 @@ func (p *h3peer) serve(conn quic.Connection) {
 		ctl = []byte{0x00, 0x04, 0x00}
 	}
 	sideStreams := func() {
+		if len(job.x.Script) > 0 {
+			streams := map[int]quic.SendStream{}
+			for _, st := range job.x.Script {
+				us, ok := streams[st.Stream]
+				if !ok {
+					cctx, cancel := context.WithTimeout(ctx, 2*time.Second)
+					var err error
+					us, err = conn.OpenUniStreamSync(cctx)
+					cancel()
+					if err != nil {
+						return
+					}
+					us.SetWriteDeadline(time.Now().Add(5 * time.Second))
+					streams[st.Stream] = us
+				}
+				us.Write(st.Data)
+				if st.Fin {
+					us.Close()
+				}
+				time.Sleep(15 * time.Millisecond)
+			}
+			return
+		}
 		p.writeUni(conn, ctl, job.x.CtlFin)
 		for _, u := range job.x.Uni {
 			p.writeUni(conn, u, true)
@@ -234,6 +267,13 @@ func h3settings(kv ...uint64) []byte {
 	}
 	return h3frame(4, p)
 }
+
+// set by genH3Cases for the uni-event-order shape: how many streams, which interleaving
+var (
+	uniK          = 2
+	uniOrder      = 0
+	uniTypesFirst = false
+)
 
 type h3gen struct {
 	shape string
@@ -451,6 +491,67 @@ func h3Sequences() []h3gen {
 			return h3ok("x")
 		}},
 		{"uni-type-cut", func(r *hk.Rand, c *Case) []byte { c.H3.Uni = [][]byte{{0x40}, {0xc0, 0x00}, {}}; return h3ok("x") }},
+		{"uni-event-order", func(r *hk.Rand, c *Case) []byte {
+			// k streams, each with its events in order (type byte, then a frame, possibly in two pieces);
+			// the events of different streams interleaved in an order drawn per case
+			kinds := [][]byte{{0x00}, {0x00}, {0x02}, {0x03}, {0x00}}
+			k := uniK
+			var per [][][]byte
+			for i := 0; i < k; i++ {
+				t := kinds[(uniOrder+i)%len(kinds)]
+				if i < 2 {
+					t = []byte{0x00} // at least two control streams
+				}
+				var second []byte
+				if t[0] == 0x00 {
+					second = h3settings()
+				} else {
+					second = []byte{0x3f, 0xe1, 0x1f}
+				}
+				ev := [][]byte{t, second}
+				if r.Chance(30) && len(second) > 1 {
+					ev = [][]byte{t, second[:1], second[1:]}
+				}
+				per = append(per, ev)
+			}
+			// the uniOrder-th interleaving that keeps every stream's own order
+			next := make([]int, k)
+			left := 0
+			for _, e := range per {
+				left += len(e)
+			}
+			ord := uniOrder
+			for left > 0 {
+				var cand []int
+				for i := 0; i < k; i++ {
+					if next[i] < len(per[i]) {
+						cand = append(cand, i)
+					}
+				}
+				var i int
+				if uniTypesFirst {
+					// all stream types first, then the rest in the drawn order
+					i = -1
+					for _, x := range cand {
+						if next[x] == 0 {
+							i = x
+							break
+						}
+					}
+					if i < 0 {
+						i = cand[ord%len(cand)]
+						ord /= len(cand)
+					}
+				} else {
+					i = cand[ord%len(cand)]
+					ord /= len(cand)
+				}
+				c.H3.Script = append(c.H3.Script, UniStep{Stream: i, Data: per[i][next[i]]})
+				next[i]++
+				left--
+			}
+			return h3ok("x")
+		}},
 		{"uni-flood", func(r *hk.Rand, c *Case) []byte {
 			c.H3.UniFlood = hk.Pick(r, []int{50, 99, 150, 400})
 			return h3ok("x")
@@ -464,7 +565,15 @@ func genH3Cases(r *hk.Rand, quick bool, add func(*Case)) {
 		reps = 40
 	}
 	for _, g := range h3Sequences() {
+		reps := reps
+		if g.shape == "uni-event-order" {
+			reps = 12
+			if !quick {
+				reps = 120
+			}
+		}
 		for i := 0; i < reps; i++ {
+			uniK, uniOrder, uniTypesFirst = 2+i%2, i/2, i%4 < 2
 			if i >= 3 && (strings.Contains(g.shape, "flood") || strings.Contains(g.shape, "big-skipped")) {
 				break
 			}
@@ -491,7 +600,10 @@ func genH3Cases(r *hk.Rand, quick bool, add func(*Case)) {
 				c.Rounds[0].Segs = nil
 				c.Flood = 48 << 20
 			}
-			c.Model = end == "fin" && c.H3.Control == nil && len(c.H3.Uni) == 0 && c.H3.UniFlood == 0
+			c.Model = end == "fin" && c.H3.Control == nil && len(c.H3.Uni) == 0 && c.H3.UniFlood == 0 && len(c.H3.Script) == 0
+			for j := range c.H3.Script {
+				c.H3.Script[j].Hex = fmt.Sprintf("%x", c.H3.Script[j].Data)
+			}
 			c.H3.CtlHex = capHex(c.H3.Control)
 			for _, u := range c.H3.Uni {
 				c.H3.UniHex = append(c.H3.UniHex, capHex(u))
